@@ -82,7 +82,8 @@ def _pad_face_connections(
 
     if isinstance(da, dict):
         isvector = True
-        vectoraxis, da = da.popitem()
+        # read the single entry without removing it from the caller's dictionary
+        vectoraxis, da = list(da.items())[-1]
     else:
         isvector = False
 
@@ -91,7 +92,7 @@ def _pad_face_connections(
         # TODO: We do not need to deal with other components
         # TODO: Need to integrate that choice deeper in the loop\.
         if other_component:
-            _, da_partner = other_component.popitem()
+            _, da_partner = list(other_component.items())[-1]
         else:
             # TODO: cover with a test.
             raise ValueError(
